@@ -39,6 +39,34 @@ CHECKS = {
    text="Differential testing of persistence: generated histories are cut at a generated prefix, the VFS is saved, a fresh VFS restored and the live backends re-attached at their recorded indices; original and restored instance then receive the same probe script and the remaining suffix of the history; replies, backend call logs and mount indices must be identical. Previous-format (version 1) snapshots are produced through a cfg-guarded hook and must load and agree.",
    design="3/C19", note="INIT with an empty capability word is not generated; version-1 snapshots via hook H3; backends re-created from a deep copy of their state at the cut.",
    technique="differential property-based testing (proptest): original vs restored instance under an identical generated script"),
+ "C05": dict(level="exploration",
+   text="Model-based testing with the host kernel as reference: generated request histories run against Server<PassthroughFs> inside a chroot jail and, operation by operation, as plain system calls on a shadow copy of the tree (creation as the caller's ids). Per op the errno, attributes, data, link target, xattr values and lseek results are compared; at the end both trees are walked on the host and must be equal; after every request the serving thread's euid/egid/capabilities must be what they were. The configuration matrix (no_open, no_opendir, inode_file_handles, use_host_ino, writeback, cache policy, xattr, withheld client capabilities) is part of the generated case.",
+   design="3/C05", note="Reference = kernel 6.18/ext4 in the sandbox; directories keep mode 0777; chmod/utimens not sent for symlinks; CREATE on an existing directory is an excluded input class; inode numbers only up to same-file<=>same-number.",
+   technique="stateful property-based testing (proptest) with a differential oracle: same operation as a host system call on a shadow tree"),
+ "C06": dict(level="exploration",
+   text="Adversarial histories (names '.', '..', '', with '/', absolute and relative escapes; symlinks to the outside created before and through the server; renames of held directories followed by '..' chains; attribute, xattr, open/read/write and listing requests on symlink inodes) run in a jail whose world around /export is a sentinel tree with magic content. Oracle: sentinel snapshot unchanged, no reply carries a sentinel inode number, magic string or outside-only name, '..' at the root is the root, invalid names refused before any backend is touched (backend call log empty behind a Vfs), symlink inodes never opened. Standalone passthrough, Vfs+passthrough and Vfs+scripted backend.",
+   design="3/C06", note="Runs as root in a mount-namespace + chroot jail, so even a successful escape stays inside the jail; inode-number clause only in the standalone variant.",
+   technique="stateful property-based testing (proptest) with a sentinel-tree invariant and reply scanning"),
+ "C08": dict(level="exploration",
+   text="Reference-count model: histories weighted to lookup/create/link/readdirplus(partial)/forget/batch-forget/unlink-while-referenced/create-after-unlink are run against passthrough ({inode_file_handles} x {use_host_ino}); the model counts entries returned minus forgotten per host file (identity = (dev,ino) of the pinned mirror object). After EVERY step every inode number ever seen is probed: it answers iff its count is positive (EBADF otherwise) and describes the modelled file; one number per file and one file per number while valid; same number after re-lookup; root exempt.",
+   design="3/C08", note="Known finding (listed): nodeid collision with inode_file_handles + use_host_ino on host inode reuse. In file-handle mode unlinked-but-referenced inodes may answer ESTALE/ENOMEM.",
+   technique="stateful property-based testing (proptest) against a reference-count model probed after every step"),
+ "C09": dict(level="exploration",
+   text="Schedule exploration with a harness-owned scheduler: cfg-guarded yield points in lookup/forget park the calling thread; one thread runs at a time and the generated schedule picks the next. Quick: random schedules of 2-3 threads x 1-3 ops. Thorough: ALL schedules (stateless DFS by re-execution) of every program set with 2 threads x <=2 ops and 3 threads x 1 op, plus random larger ones. Oracle: linearizability against the sequential reference-count model (one number for the file, final count measured by forgetting until EBADF == initial + lookups - forgets, held references always resolve, no livelock).",
+   design="3/C09", note="Granularity = the hook points, sequentially consistent execution; exhaustive only for the named bounded program sets in the thorough tier.",
+   technique="schedule-generating property-based testing (proptest) + exhaustive schedule enumeration with a linearizability oracle"),
+ "C15": dict(level="fault_enumeration",
+   text="(history) open/opendir/listing/release/forget/DESTROY+INIT histories incl. deliberately wrong handle use; after the client released everything, open descriptors (/proc/self/fd) and inode/handle/cookie/mount-fd table sizes must equal a freshly started server's. (fault) every request of a generated history is served with the descriptor table plugged and RLIMIT_NOFILE allowing n more descriptors for n = 0,1,2,... until the limit no longer decides: the (n+1)-th descriptor allocation inside the server fails, for every n; the model follows the replies; same end-state comparison; a success under a fault must come with a working handle.",
+   design="3/C15", note="Single-threaded jailed worker; table sizes through the read-only hook H2.",
+   technique="stateful property-based testing (proptest) with enumerated EMFILE fault injection per request"),
+ "C16": dict(level="exploration",
+   text="Directories of 0..300 (thorough 5000) entries with names of every length are listed under generated plans: up to 40 reads on up to 3 handles (or handle-less), resuming from 0, from the handle's last entry or from ANY previously returned entry, with buffers from exactly-the-next-entry up to 64 KiB, plain or plus. Oracle relative to the first sequential pass S: the reply to 'offset of S[k]' is S[k+1..k+m]; S equals the host listing with matching types; offsets non-zero and distinct; payload within size; plus entries carry the file's attributes and exactly the delivered ones hold a reference. Passthrough, pseudo-fs and Vfs-wrapped directories.",
+   design="3/C16", note="Known finding (listed): buffers with < 48 spare bytes can come back empty (dot entries). One host-kernel quirk after lseek to end-of-directory is worked around with a throw-away read.",
+   technique="property-based testing (proptest): generated resume plans against the sequence of a reference pass"),
+ "C18": dict(level="exploration",
+   text="Sealed export with files of assorted sizes; generated histories of opens/creates with every flag combination, writes at boundary offsets with arbitrary flag words (append added/removed/random), size-changing setattr, fallocate with many mode words, on handle-based and zero-message-open servers. Invariant after EVERY request: each pre-existing file has its initial size on the host. Differential against an unsealed twin: what changes a size there must be refused here; what stays within the size must be answered and take effect as on the twin.",
+   design="3/C18", note="setattr carrying SIZE is refused by design; O_DIRECT transfers are not compared with the twin (alignment dependent).",
+   technique="stateful property-based testing (proptest): size invariant after every step + differential against an unsealed twin"),
  "C02": dict(
    level="exploration",
    text="Generated search: every opcode x boundary/random valuations of every wire field (encoded through the kernel's own struct layouts) is served by Server<Arc<MockFs>> over both transports and the logged FileSystem call is compared with a protocol-level oracle table; a wrong method, swapped/dropped argument or missing flag test shows as a mismatch. Exploration is the right level: the domain is a huge product of field values with no finite abstraction the tools here could exhaust.",
